@@ -18,7 +18,7 @@ from pymap.message import BaseMessage, BaseLoadedMessage
 from pymap.mime import MessageContent
 from pymap.parsing.message import AppendMessage
 from pymap.parsing.specials import ObjectId, FetchRequirement
-from pymap.parsing.specials.flag import Flag, Seen
+from pymap.parsing.specials.flag import Flag, Recent, Seen
 from pymap.selected import SelectedSet, SelectedMailbox
 from pymap.threads import ThreadKey
 
@@ -246,7 +246,7 @@ class MailboxData(MailboxDataInterface[Message]):
         thread_id = self._thread_cache.add(content)
         async with self.messages_lock.write_lock():
             self._max_uid = new_uid = self._max_uid + 1
-            message = Message(new_uid, when, append_msg.flag_set,
+            message = Message(new_uid, when, append_msg.flag_set - {Recent},
                               email_id=email_id, thread_id=thread_id,
                               recent=recent, content=content)
             self._messages[new_uid] = message
